@@ -148,6 +148,11 @@ def w2(ctx):
                 rec_args = [a for a in r[3] if any(isinstance(x, tuple) and x[0] == "call" and x[1] == b.name for x in role_walk(a))]
                 old_args = [a for a in r[3] if not any(isinstance(x, tuple) and x[0] == "call" and x[1] == b.name for x in role_walk(a)) and role_mentions_param(a, pname)]
                 ok = bool(rec_args) and bool(old_args)
+                if ok:
+                    io, ir = r[3].index(old_args[0]), r[3].index(rec_args[0])
+                    ctx.check(io < ir, "compression-order:" + C.fkey(b), "the old entry (edge out of the queried id) comes first, the recursive result (rest of the path) second",
+                              "path compression in %s combines (recursive result, old entry) in that order: the chaining helper composes `first ; second`, the old entry is the first edge of the path — swapped, slot maps of unrelated classes are composed" % C.short(b.id),
+                              where_of(b, bi, s.get("line")))
             ctx.check(ok, "compression-combines:" + C.fkey(b), "compressed entry = combine(old entry, recursive result): %s" % role_str(r),
                       "path compression in %s stores %s — it must combine the old entry (its slot map is the first edge) with the recursive result; storing the leader entry alone drops a slot map, so a compressed find differs from an uncompressed one" % (C.short(b.id), role_str(r)),
                       where_of(b, bi, s.get("line")))
@@ -335,3 +340,12 @@ def si(ctx):
 
 
 RULES.append(si)
+
+
+@rule("G7", doc="no panic in rebuild from a non-permutation self-symmetry (shared with C10.G7)")
+def g7(ctx):
+    from . import c10
+    c10.g7(ctx)
+
+
+RULES.append(g7)
